@@ -32,8 +32,12 @@ def shards(tier, seed):
     z = SIZES[tier]
     out = []
     cases = PW.build_cases(seed, "c04", z["strict"], per_pair_configs=1, translucent_every=9)
-    for c in cases:
+    for i, c in enumerate(cases):
         c["cfgs"] = [[0, lg, vr] for lg in (False, True) for vr in (False, True)]
+        if i % 2 == 0:
+            # history: default / relaxed mode calls in the same process *before* the strict ones (their results are
+            # not judged here); a schedule or bound that leaks from one mode into another shows up as a strict-mode excess
+            c["cfgs"] = [[2, bool(i & 2), bool(i & 4)], [1, bool(i & 4), bool(i & 2)]] + c["cfgs"]
     out += [{"kind": "strict", "cases": c} for c in PW.chunk(cases, 16)]
     out += [{"kind": "routines", "seed": seed, "idx": i, "n": z["routine"] // 16} for i in range(16)]
     out += [{"kind": "chains", "seed": seed, "idx": i, "n": z["chains"] // 16} for i in range(16)]
@@ -43,6 +47,9 @@ def shards(tier, seed):
 def judge_strict(case, obs, rec):
     orig = obs["orig"]
     for (mode, large, vr), out in obs["res"].items():
+        if mode != 0:
+            rec.count("history_calls_before_strict")
+            continue
         cs = {"fn": "strict", **{k: case[k] for k in ("text", "bg", "tk", "bk", "t", "b")}, "large": large, "vr": vr, "observed": repr(out)}
         if out[0] == "EXC":
             rec.violation(f"make_readable(mode=0) raised {out[1]}", cs)
@@ -92,7 +99,17 @@ def routines(shard, rec, lib):
         if f is None:
             rec.count("skipped:" + nm + " absent")
     rnd = G.rng("c04routines", shard["seed"], shard["idx"])
+    hard = [("#ffff00", "#ffffff"), ((130, 183, 14), (238, 127, 26)), ("#eeeeee", "#ffffff"), ((128, 128, 128), (120, 120, 120))]
     for i in range(shard["n"]):
+        if i % 40 == 0:
+            # history: relaxed / default mode runs on pairs they cannot repair, then the routines with their *default* arguments
+            t0, b0 = hard[(i // 40) % len(hard)]
+            try:
+                lib.ColorPair(t0, b0).make_readable(mode=2, very_readable=bool(i & 64))
+                lib.ColorPair(t0, b0).make_readable(mode=1)
+            except Exception:
+                rec.count("history_call_raised")
+            rec.count("history_calls_before_routines", 2)
         if i % 3 == 0:
             g = G.below(rnd, rnd.random() < 0.5, rnd.random() < 0.5, lo=0.2)
             t, b = g if g else (G.uniform(rnd), G.uniform(rnd))
